@@ -12,6 +12,17 @@ TEBDAG = "quimb.tensor.tnag.tebd"
 TEBD1D = "quimb.tensor.tn1d.tebd"
 
 
+def _is_id_key(sl, fnode):
+    """the subscript is keyed by an expression containing id(...) — directly or through a local bound to one"""
+    def has_id(e):
+        return any(isinstance(c, ast.Call) and dotted(c.func) == "id" for c in ast.walk(e))
+    if has_id(sl):
+        return True
+    if isinstance(sl, ast.Name):
+        return any(isinstance(a, ast.Assign) and any(isinstance(t, ast.Name) and t.id == sl.id for t in a.targets) and has_id(a.value) for a in ast.walk(fnode))
+    return False
+
+
 def _id_keyed_caches(cls):
     """Methods whose cache key contains id(<param>) and whose stored value
     does not retain that parameter: name -> (cache slot, id-params)."""
@@ -29,7 +40,7 @@ def _id_keyed_caches(cls):
         retained = False
         stores = 0
         for n in ast.walk(f.node):
-            if isinstance(n, ast.Assign) and isinstance(n.targets[0], ast.Subscript) and src_of(n.targets[0].slice) == "key":
+            if isinstance(n, ast.Assign) and isinstance(n.targets[0], ast.Subscript) and _is_id_key(n.targets[0].slice, f.node):
                 stores += 1
                 v = n.value
                 if isinstance(v, ast.Tuple) and any(isinstance(e, ast.Name) and e.id in idparams for e in v.elts):
@@ -560,10 +571,11 @@ def rule_time_bookkeeping(ctx):
         r.bad(Finding("time-bookkeeping", "TEBD.sweep", "queued sweep is not merged / drained as expected", where=where, operand="queue"))
     # every gate of a sweep is built with the sweep's dt_frac
     gets = [n for n in ast.walk(sw.node) if isinstance(n, ast.Call) and src_of(n.func) == "self._get_gate_from_ham"]
-    if gets and all(src_of(g.args[0]) == "dt_frac" and src_of(g.args[1]) == "sites" for g in gets):
-        r.ok("TEBD.sweep[gates]", sample={"gates": len(gets), "built with": "dt_frac, sites"})
+    # (that the pair a gate is requested for is the pair it is applied to is decided by gate-orientation)
+    if gets and all(g.args and isinstance(g.args[0], ast.Name) and g.args[0].id == "dt_frac" for g in gets):
+        r.ok("TEBD.sweep[gates]", sample={"gates": len(gets), "built with": "the sweep's dt_frac"})
     else:
-        r.bad(Finding("time-bookkeeping", "TEBD.sweep", "a gate is not built from (dt_frac, sites)", where=where, operand="gates"))
+        r.bad(Finding("time-bookkeeping", "TEBD.sweep", "a gate is not built with the sweep's dt_frac", where=where, operand="gates"))
     return r
 
 
@@ -671,11 +683,17 @@ def rule_memo_key_complete(ctx):
                 for x in ast.walk(f.node):
                     if not isinstance(x, ast.Assign):
                         continue
-                    subs = [t for t in x.targets if isinstance(t, ast.Subscript) and isinstance(t.slice, ast.Name) and t.slice.id == "key"]
-                    if not subs or "key" not in defs:
+                    # memo pattern: `<cache>[k] = EXPR` with k a local that is also tested for membership / looked up under KeyError
+                    memo_keys = {c_.left.id for c_ in ast.walk(f.node) if isinstance(c_, ast.Compare) and isinstance(c_.left, ast.Name)
+                                 and len(c_.ops) == 1 and isinstance(c_.ops[0], (ast.In, ast.NotIn))}
+                    if any(isinstance(h_, ast.ExceptHandler) and h_.type is not None and "KeyError" in src_of(h_.type) for h_ in ast.walk(f.node)):
+                        memo_keys |= {t_.slice.id for t_ in ast.walk(f.node) if isinstance(t_, ast.Subscript) and isinstance(t_.slice, ast.Name) and isinstance(t_.ctx, ast.Load)}
+                    subs = [t for t in x.targets if isinstance(t, ast.Subscript) and isinstance(t.slice, ast.Name) and t.slice.id in memo_keys and t.slice.id in defs]
+                    if not subs:
                         continue
                     n += 1
-                    keyexpr = defs["key"][-1]
+                    kname = subs[0].slice.id
+                    keyexpr = defs[kname][-1]
                     keynames = {y.id for y in ast.walk(keyexpr) if isinstance(y, ast.Name)} | {
                         y.attr for y in ast.walk(keyexpr) if isinstance(y, ast.Attribute) and src_of(y.value) == "self"}
 
@@ -684,7 +702,7 @@ def rule_memo_key_complete(ctx):
                         for y in ast.walk(e):
                             if isinstance(y, ast.Attribute) and isinstance(y.value, ast.Name) and y.value.id == "self":
                                 out.add(y)
-                            if isinstance(y, ast.Name) and y.id in defs and depth < 4 and y.id != "key":
+                            if isinstance(y, ast.Name) and y.id in defs and depth < 4 and y.id != kname:
                                 for d in defs[y.id]:
                                     if d is not e:
                                         out |= attrs_in(d, depth + 1)
